@@ -56,3 +56,41 @@ Theorem move_assign_footprint_refuted :
   consumption fpL (fst (mkvec fpL (v_cap src) 0 [] 1 (mfill 170) 5%nat 6%nat)) = 16 /\
   consumption fpL d' = 128.
 Proof. vm_compute. repeat split; reflexivity. Qed.
+
+(* ---------- reserve of a list WITHOUT VaryingSize parameter: the grow formula stride * n, a fresh
+   vector stride * n - (stride - size); both round to the same number of storage units ---------- *)
+From Cntgs Require Import LayoutThm EsizeThm.
+
+Lemma units_round L x p : 0 < SA L -> (SA L | x) -> 0 <= p < SA L -> units L (x - p) = units L x.
+Proof.
+  intros HS [q ->] Hp. unfold units.
+  rewrite Z.mod_mul by lia. rewrite Z.div_mul by lia. rewrite Z.eqb_refl.
+  destruct (Z.eq_dec p 0) as [->|Hne].
+  - rewrite Z.sub_0_r, Z.mod_mul by lia. rewrite Z.div_mul by lia. rewrite Z.eqb_refl. reflexivity.
+  - replace (q * SA L - p) with ((SA L - p) + (q - 1) * SA L) by ring.
+    rewrite Z.div_add by lia. rewrite Z.mod_add by lia.
+    rewrite Z.div_small by lia. rewrite Z.mod_small by lia.
+    replace (SA L - p =? 0) with false by (symmetry; apply Z.eqb_neq; lia). lia.
+Qed.
+
+Theorem reserve_footprint_fixed L v n junk bid tbid aid junk' bid' tbid' :
+  wf_plist L = true -> has_varying L = false -> Forall (fun c => 0 <= c) (fixed_counts L (v_fixed v)) ->
+  v_stride v = snd (esize L (v_fixed v)) -> 0 <= v_cap v < n ->
+  consumption L (fst (reserve L v n 0 junk bid tbid)) =
+  consumption L (fst (mkvec L n 0 (v_fixed v) aid junk' bid' tbid')).
+Proof.
+  intros Hwf Hv Hfc Hst Hn. unfold reserve, mkvec, consumption.
+  replace (v_cap v <? n) with true by (symmetry; apply Z.ltb_lt; lia). rewrite Hv.
+  destruct (insert_into true true L v bid junk) as [[v1 m] e1]. cbn [fst v_units]. f_equal.
+  unfold needed_grow_fixed, needed. rewrite Hst.
+  pose proof (wf_plist_Forall _ Hwf) as HF. pose proof (wf_plist_nonempty _ Hwf) as Hne.
+  pose proof (pow2_pos _ (SA_pow2 L HF Hne)) as HSp.
+  destruct (esize_spec L Hwf Hv (v_fixed v) (canon_cnts L (fixed_counts L (v_fixed v))) 0) as [E1 E2]; auto; try lia.
+  { apply canon_cnts_match; auto. rewrite fixed_counts_length. lia. }
+  { apply Z.divide_0_r. }
+  destruct (esize L (v_fixed v)) as [size stride]. cbn [fst snd] in *.
+  replace (n =? 0) with false by (symmetry; apply Z.eqb_neq; lia).
+  rewrite <- E1 in E2. pose proof (align_up_ge size (SA L) HSp) as Hge. rewrite <- E2 in Hge.
+  rewrite !Z.add_0_l. symmetry. apply units_round; [exact HSp| |lia].
+  apply Z.divide_mul_l. rewrite E2. apply align_up_div. exact HSp.
+Qed.
